@@ -243,8 +243,10 @@ func (c *Client) messageHandler(msg protocol.Message) error {
 
 func (c *Client) handleVote(msg protocol.Message) {
 	msgVote := msg.(*MsgVote)
+	// Handlers run inside the receive loop: DoneChan cannot close while one
+	// of them waits, ShutdownChan can (the vote loop may be gone)
 	select {
-	case <-c.DoneChan():
+	case <-c.ShutdownChan():
 	case c.voteChan <- msgVote.Vote:
 	}
 }
